@@ -21,6 +21,9 @@ from standins import oracle as O
 NAN, INF = float("nan"), float("inf")
 
 
+STATS = {"returned": 0, "raised": 0, "harness_error": 0, "other": 0}
+
+
 def forked(fn, timeout=20):
     """-> None when the child returned or raised; else a description of how it died"""
     sys.stdout.flush()
@@ -30,13 +33,20 @@ def forked(fn, timeout=20):
             devnull = os.open(os.devnull, os.O_WRONLY)
             os.dup2(devnull, 2)
             signal.alarm(timeout)
+            code = 0
             try:
                 fn()
+            except (AttributeError, NameError, ImportError) as e:
+                code = 9             # most likely an error of this harness, not of the library: counted separately
+                if os.environ.get("C09_DEBUG"):
+                    os.write(1, ("HARNESS? %s: %s\n" % (getattr(fn, "_nm", "?"), e)).encode())
             except BaseException:
-                pass
+                code = 7
         finally:
-            os._exit(0)
+            os._exit(code)
     _, status = os.waitpid(pid, 0)
+    if os.WIFEXITED(status):
+        STATS[{0: "returned", 7: "raised", 9: "harness_error"}.get(os.WEXITSTATUS(status), "other")] += 1
     if os.WIFSIGNALED(status):
         sig = os.WTERMSIG(status)
         if sig == signal.SIGALRM:
@@ -131,12 +141,75 @@ def tree_cases(ts, desc):
         out.append(("ts.decapitate(%r)" % x, lambda x=x: ts.decapitate(x)))
         out.append(("ts.split_edges(%r)" % x, lambda x=x: ts.split_edges(x)))
         out.append(("tables.delete_older(%r)" % x, lambda x=x: ts.dump_tables().delete_older(x)))
-        out.append(("ts.shift(%r)" % x, lambda x=x: ts.shift(x)))
     for g in ([], [0], [0] * (ts.num_samples + 1), [5] * ts.num_samples, [-2] * ts.num_samples, [64] * ts.num_samples, [127] * ts.num_samples):
         out.append(("tree.map_mutations(%r)" % g, lambda g=g: ts.first().map_mutations(np.array(g, dtype=np.int8), ["A", "C"])))
     out.append(("ts.extend_haplotypes()", lambda: ts.extend_haplotypes()))
     for k in (-1, 0, 2**31, 2**32):
         out.append(("Tree(ts, root_threshold=%r)" % k, lambda k=k: tskit.Tree(ts, root_threshold=k).first()))
+    return [(desc + ": " + nm, f) for nm, f in out]
+
+
+TABLES = ["nodes", "edges", "sites", "mutations", "migrations", "individuals", "populations", "provenances"]
+
+
+def table_cases(t, ts, desc):
+    """row and column operations of each table with out-of-range rows, wrong-length columns, bad offsets"""
+    out = []
+    for name in TABLES:
+        n = len(getattr(t, name))
+        for k in bad_ids(n):
+            out.append(("%s.truncate(%r)" % (name, k), lambda name=name, k=k: getattr(t.copy(), name).truncate(k)))
+            out.append(("%s[%r]" % (name, k), lambda name=name, k=k: getattr(t.copy(), name)[k]))
+            out.append(("%s.extend(self copy, [%r])" % (name, k),
+                        lambda name=name, k=k: getattr(t.copy(), name).ll_table.extend(
+                            getattr(t, name).copy().ll_table, row_indexes=np.array([k]))))
+            out.append(("%s[[%r]] (index array)" % (name, k), lambda name=name, k=k: getattr(t.copy(), name)[[k]]))
+        for ln in (0, max(n - 1, 0), n, n + 1):
+            out.append(("%s.keep_rows(mask of length %d)" % (name, ln),
+                        lambda name=name, ln=ln: (lambda c: (getattr(c, name).keep_rows(np.arange(ln) % 2 == 0), follow_up(c)))(t.copy())))
+        cols = getattr(t, name).asdict()
+        for col in list(cols):
+            if col.endswith("_schema"):
+                continue
+            a = cols[col]
+            variants = [("one element short", a[:-1] if len(a) else a), ("one element long", np.concatenate([a, a[:1]]) if len(a) else a)]
+            if col.endswith("_offset") and len(a) > 1:
+                b1 = a.copy(); b1[-1] += 1
+                b2 = a.copy(); b2[0] = 1
+                b3 = a.copy()[::-1].copy()
+                b4 = a.copy(); b4[-1] = 2**63
+                b5 = a.copy(); b5[len(a) // 2] = 2**64 - 1
+                variants += [("last offset + 1", b1), ("first offset 1", b2), ("offsets reversed", b3), ("last offset 2^63", b4),
+                             ("middle offset 2^64-1", b5)]
+            for vn, v in variants:
+                for meth in ("set_columns", "append_columns"):
+                    def f(name=name, col=col, v=v, meth=meth):
+                        c = t.copy()
+                        d = getattr(c, name).asdict()
+                        d.pop("metadata_schema", None)
+                        d[col] = v
+                        try:
+                            getattr(getattr(c, name), meth)(**d)
+                        except Exception:
+                            pass
+                        follow_up(c)
+                    out.append(("%s.%s(%s %s)" % (name, meth, col, vn), f))
+    n = ts.num_nodes
+    for ids in ([n], [-1], [2**31 - 1], [0, 0], [], [2**32]):
+        for k in bad_ids(ts.num_sites)[:9]:
+            out.append(("Variant(samples=%r).decode(%r)" % (ids, k), lambda ids=ids, k=k: tskit.Variant(ts, samples=ids).decode(k)))
+        out.append(("write_vcf(individuals=%r)" % ids, lambda ids=ids: ts.write_vcf(io.StringIO(), individuals=ids)))
+    for k in bad_ids(ts.num_sites):
+        out.append(("Variant().decode(%r)" % k, lambda k=k: tskit.Variant(ts).decode(k)))
+    for u in bad_ids(n):
+        out.append(("tree.as_newick(root=%r)" % u, lambda u=u: ts.first().as_newick(root=u)))
+        out.append(("tree.as_newick(root=%r, node_labels)" % u, lambda u=u: ts.first().as_newick(root=u, node_labels={0: "x"})))
+    for pr in (-1, 0, 17, 100, 2**31):
+        out.append(("tree.as_newick(precision=%r)" % pr, lambda pr=pr: [tr.as_newick(root=r, precision=pr) for tr in ts.trees() for r in tr.roots]))
+    for nn, rk in ((3, (0, 5)), (3, (9, 0)), (0, (0, 0)), (-1, (0, 0)), (3, (-1, 0)), (3, (2**64, 0)), (40, (10**30, 0))):
+        out.append(("Tree.unrank(%r, %r)" % (nn, rk), lambda nn=nn, rk=rk: tskit.Tree.unrank(nn, rk)))
+    for blob in (b"", b"garbage", b"\x89KAS\r\n\x1a\n" + b"\0" * 56, b"\x89KAS\r\n\x1a\n" + b"\xff" * 56):
+        out.append(("tskit.load(%r...)" % blob[:12], lambda blob=blob: tskit.load(io.BytesIO(blob))))
     return [(desc + ": " + nm, f) for nm, f in out]
 
 
@@ -258,7 +331,6 @@ def table_ops(n):
         ("tree_sequence() genotypes", lambda c: c.tree_sequence().genotype_matrix()),
         ("dump + load", lambda c: (lambda b: (c.dump(b), b.seek(0), tskit.TableCollection.load(b)))(io.BytesIO())),
         ("equals(copy) / asdict / str", lambda c: (c.equals(c.copy()), c.asdict(), str(c), c.nbytes)),
-        ("shift(1)", lambda c: c.shift(1.0)),
     ]
     return ops
 
@@ -288,7 +360,10 @@ def main():
                  "single-cell corruption (ids -2, n, n+1, 2^31-1; coordinates nan, inf, -1, 1e300; bad sequence_length; "
                  "reversed edges; indexes with out-of-range / short / long entries) x each table-collection algorithm, "
                  "followed by a second use of the same object; each call in a forked child (signal or >20 s = violation); "
-                 "(c) ids outside [-1, num_nodes] refused by the Tree accessors" % N)
+                 "(c) ids outside [-1, num_nodes] refused by the Tree accessors; (d) truncate / index / extend / keep_rows / "
+                 "set_columns / append_columns of each of the eight tables with out-of-range rows, columns one element "
+                 "short or long and ill-formed offsets, Variant.decode, write_vcf, as_newick, Tree.unrank and load with bad "
+                 "arguments" % N)
     done = 0
     for k in range(N * 6):
         if done >= N:
@@ -307,11 +382,19 @@ def main():
         # (a) valid tree sequence, adversarial arguments
         for nm, f in tree_cases(ts, desc):
             run.case(nm.split(":")[1].split("(")[0])
+            f._nm = nm
             died = forked(f)
             if died:
                 run.violation("an API call with adversarial arguments returns or raises", {"case": nm, "tables": brief}, died,
                               "a result or a Python exception")
         huge_id_clause(run, ts, desc)
+        for nm, f in table_cases(t, ts, desc):
+            run.case(nm.split(":")[1].split("(")[0])
+            f._nm = nm
+            died = forked(f)
+            if died:
+                run.violation("a table / variant / export call with adversarial arguments returns or raises",
+                              {"case": nm, "tables": brief}, died, "a result or a Python exception")
         # (b) invalid collections x algorithms
         for cdesc, cf in corruptions(t):
             for odesc, of in table_ops(t.nodes.num_rows):
@@ -331,7 +414,9 @@ def main():
                                   "a result or a Python exception")
         if run.violations:
             break
-    run.sample({"note": "see scope"})
+    run.sample({"children": dict(STATS)})
+    if STATS["harness_error"] > 0.02 * max(1, sum(STATS.values())):
+        run.violation("the harness exercises the API (few AttributeError/NameError outcomes)", dict(STATS), STATS["harness_error"], "< 2%")
     run.finish()
 
 
